@@ -91,6 +91,16 @@ func (c *code) pushAddr(a common.Address) *code {
 	return c
 }
 
+// fin consumes the value on top of the stack: mostly by folding it into an accumulator word in memory (0x7e0) that the
+// terminators return or store, so that a wrong intermediate value shows in the result, sometimes by a plain POP.
+func (g *G) fin(c *code) {
+	if g.R.Intn(4) == 0 {
+		c.op(0x50)
+		return
+	}
+	c.op(0x61, 0x07, 0xe0, 0x51, 0x18, 0x61, 0x07, 0xe0, 0x52)
+}
+
 func (g *G) smallOff() uint64 {
 	switch g.R.Intn(8) {
 	case 0:
@@ -132,21 +142,27 @@ var envOps = []byte{0x30, 0x32, 0x33, 0x34, 0x36, 0x38, 0x3a, 0x3d, 0x41, 0x42, 
 func (g *G) snippet(c *code, depth int) {
 	switch g.R.Intn(30) {
 	case 0, 1, 2, 3:
-		c.push(g.word()).push(g.word()).op(binOps[g.R.Intn(len(binOps))], 0x50)
+		c.push(g.word()).push(g.word()).op(binOps[g.R.Intn(len(binOps))])
+		g.fin(c)
 	case 4:
-		c.push(g.word()).push(g.word()).push(g.word()).op([]byte{0x08, 0x09}[g.R.Intn(2)], 0x50)
+		c.push(g.word()).push(g.word()).push(g.word()).op([]byte{0x08, 0x09}[g.R.Intn(2)])
+		g.fin(c)
 	case 5:
-		c.push(g.word()).op([]byte{0x15, 0x19}[g.R.Intn(2)], 0x50)
+		c.push(g.word()).op([]byte{0x15, 0x19}[g.R.Intn(2)])
+		g.fin(c)
 	case 6, 7:
-		c.op(envOps[g.R.Intn(len(envOps))], 0x50)
+		c.op(envOps[g.R.Intn(len(envOps))])
+		g.fin(c)
 	case 8:
 		c.push(g.word()).pushN(g.smallOff()).op(0x52) // MSTORE
 	case 9:
-		c.pushN(g.smallOff()).op(0x51, 0x50) // MLOAD
+		c.pushN(g.smallOff()).op(0x51) // MLOAD
+		g.fin(c)
 	case 10:
 		c.push(g.word()).pushN(g.smallOff()).op(0x53) // MSTORE8
 	case 11:
-		c.pushN(uint64(g.R.Intn(100))).pushN(g.smallOff()).op(0x20, 0x50) // KECCAK256
+		c.pushN(uint64(g.R.Intn(100))).pushN(g.smallOff()).op(0x20) // KECCAK256
+		g.fin(c)
 	case 12:
 		// CALLDATACOPY / CODECOPY / RETURNDATACOPY(may be out of bounds)
 		op := []byte{0x37, 0x39, 0x3e}[g.R.Intn(3)]
@@ -154,11 +170,13 @@ func (g *G) snippet(c *code, depth int) {
 	case 13:
 		c.pushN(uint64(g.R.Intn(40))).pushN(uint64(g.R.Intn(40))).pushN(g.smallOff()).pushAddr(g.target()).op(0x3c) // EXTCODECOPY
 	case 14:
-		c.pushAddr(g.target()).op([]byte{0x31, 0x3b, 0x3f}[g.R.Intn(3)], 0x50) // BALANCE EXTCODESIZE EXTCODEHASH
+		c.pushAddr(g.target()).op([]byte{0x31, 0x3b, 0x3f}[g.R.Intn(3)]) // BALANCE EXTCODESIZE EXTCODEHASH
+		g.fin(c)
 	case 15, 16, 17:
 		c.pushN(uint64(g.R.Intn(3))).pushN(uint64(g.R.Intn(3))).op(0x55) // SSTORE(key, val)
 	case 18:
-		c.pushN(uint64(g.R.Intn(4))).op(0x54, 0x50) // SLOAD
+		c.pushN(uint64(g.R.Intn(4))).op(0x54) // SLOAD
+		g.fin(c)
 	case 19:
 		n := g.R.Intn(5)
 		for i := 0; i < n; i++ {
@@ -166,9 +184,11 @@ func (g *G) snippet(c *code, depth int) {
 		}
 		c.pushN(uint64(g.R.Intn(60))).pushN(g.smallOff()).op(byte(0xa0 + n))
 	case 20:
-		c.push(g.word()).op(0x35, 0x50) // CALLDATALOAD
+		c.push(g.word()).op(0x35) // CALLDATALOAD
+		g.fin(c)
 	case 21:
-		c.push(g.word()).op(0x40, 0x50) // BLOCKHASH
+		c.push(g.word()).op(0x40) // BLOCKHASH
+		g.fin(c)
 	case 22:
 		// DUP / SWAP
 		c.push(g.word()).push(g.word()).op(byte(0x80+g.R.Intn(2)), byte(0x90), 0x50, 0x50, 0x50)
@@ -232,10 +252,11 @@ func (g *G) callSnippet(c *code) {
 	c.op(kind)
 	if g.R.Intn(3) == 0 {
 		// use the return data
-		c.op(0x3d, 0x50)
+		c.op(0x3d)
+		g.fin(c)
 		c.pushN(uint64(g.R.Intn(48))).pushN(uint64(g.R.Intn(8))).pushN(g.smallOff()).op(0x3e)
 	}
-	c.op(0x50)
+	g.fin(c)
 }
 
 func (g *G) initCode() []byte {
@@ -279,14 +300,19 @@ func (g *G) createSnippet(c *code) {
 		val = 1
 	}
 	if g.R.Intn(2) == 0 {
-		c.pushN(uint64(len(ic))).pushN(off).pushN(val).op(0xf0, 0x50)
+		c.pushN(uint64(len(ic))).pushN(off).pushN(val).op(0xf0)
 	} else {
-		c.pushN(uint64(g.R.Intn(3))).pushN(uint64(len(ic))).pushN(off).pushN(val).op(0xf5, 0x50)
+		c.pushN(uint64(g.R.Intn(3))).pushN(uint64(len(ic))).pushN(off).pushN(val).op(0xf5)
 	}
+	g.fin(c)
 }
 
 func (g *G) terminator(c *code) {
-	switch g.R.Intn(10) {
+	switch g.R.Intn(14) {
+	case 10, 11, 12:
+		c.pushN(32).pushN(0x7e0).op(0xf3) // return the accumulator
+	case 13:
+		c.pushN(0x7e0).op(0x51).pushN(9).op(0x55, 0x00) // store the accumulator
 	case 0, 1, 2:
 		c.op(0x00)
 	case 3, 4, 5:
@@ -319,6 +345,10 @@ func Sanitize(code []byte) []byte {
 	for i, b := range out {
 		if b >= 0xe0 && b <= 0xe7 {
 			out[i] = b - 0x10 // 0xd0-0xd7: undefined in both implementations
+		}
+		// bytes that one of the two code bases gives a (Cancun) name to and the other does not: not standard up to Shanghai
+		if b == 0xb3 || b == 0xb4 || b == 0x5c || b == 0x5d || b == 0x5e {
+			out[i] = 0xc0 | (b & 0x0f) // 0xc3 0xc4 0xcc 0xcd 0xce: undefined in both
 		}
 	}
 	return out
